@@ -537,7 +537,12 @@ FamCyc(K, CH) ==
 (***************************************************************************)
 GoodOuts(gr) == SetToSeq({gr.stmts[i].outs[1] : i \in {j \in DOMAIN gr.stmts : ~gr.stmts[j].badrspdir}})
 DryShapes == {"chain2", "chain3", "fanin", "fanout", "mixed", "alias", "implicit", "oonly", "valid", "group"}
+\* what a dry run prints (the real StatusPrinter on a captured stdout): console-pool statements beside others
+DryListGraphs(K) ==
+  UNION { {WithPools(gr, pa) : pa \in RandomSubset(K + 1, [1..Len(gr.stmts) -> {"", "console", "p1"}])} : gr \in UNION {GraphsS(sh, {"plain", "restat"}, 1) : sh \in {"wide4", "widejoin", "fanin", "chain3"}} }
 FamDry(K, CH) ==
+  UNION { {Scn(gr, <<BX(Roots(gr), j, 1, [dry |-> TRUE, printer |-> "pipe", verbose |-> v]), Build(Roots(gr), 2, 1)>>) : j \in {1, 3}, v \in BOOLEAN} : gr \in DryListGraphs(K) }
+  \cup
   UNION { {Scn(gr, <<Build(Roots(gr), 2, 1), c, BX(Roots(gr), 2, 1, [dry |-> TRUE]), Build(Roots(gr), 2, 1), Build(Roots(gr), 2, 1)>>) : c \in Pick(CH, Changes(gr))}
           \cup {Scn(gr, <<BX(Roots(gr), 2, 1, [dry |-> TRUE]), Build(Roots(gr), 2, 1)>>)}
           \cup {Scn(gr, <<BuildF(Roots(gr), 2, 0, FailRec(S, 1, TRUE)), BX(Roots(gr), 2, 1, [dry |-> TRUE]), Build(Roots(gr), 2, 1), Build(Roots(gr), 2, 1)>>) : S \in Pick(2, FailSets(gr))}
